@@ -382,7 +382,7 @@ reg_node("C01", "Theorems: election safety for every reachable state of the abst
          "(on_vote_request, start_election, on_vote_result, restart) are compared event by event with the real handlers; monitor: two nodes "
          "leader in one term on the simulated cluster.",
          ["Abs/Votes.v and Abs/Raft.v have a static voter set; election safety under membership changes is cfg_election_safety (Props/C08_abs.v, model Abs/CfgRaft.v: membership changes, flush, crash, snapshot installation)"],
-         extra_props=["AbsTie.v", "C20.v", "C08_abs.v", "CfgTie.v"])
+         extra_props=["AbsTie.v", "C20.v", "C08_abs.v", "C11_abs.v", "CfgTie.v"])
 
 
 # ------------------------------------------------------------------ C14
@@ -584,8 +584,11 @@ reg_node("C11", "Theorems: an election is started only by a voter of the node's 
          "otherwise); whatever the event, a node that becomes candidate or leader is a voter of its latest configuration (or of the configuration it "
          "held when elected, if as a single voter it demoted itself in the same step); non-voters' match indices never influence the commit point; "
          "promotion only after the current round completed (and was fast enough or nothing new arrived); a leader that is no voter of a "
-         "configuration it commits steps down; shutdown-on-remove only after the removing configuration is committed.",
-         ["NoDup node ids in a configuration (Go map)"])
+         "configuration it commits steps down; shutdown-on-remove only after the removing configuration is committed. Cluster level (Props/C11_abs.v "
+         "on Abs/CfgRaft.v, every reachable state): a leader was a voter of the latest configuration of its own log when elected and was elected by a "
+         "majority of THAT configuration's voters (votes from outside never count), one vote per voter and term, a campaigning node is a voter of its "
+         "latest configuration; commits count voters of the leader's configuration only (cfg_committed_durable_on_majority).",
+         ["NoDup node ids in a configuration (Go map)"], extra_props=["C11_abs.v", "C08_abs.v", "CfgTie.v"])
 reg_node("C16", "Theorems: timeout-now goes only to another voter that is reachable and holds the leader's whole log; while a transfer is in "
          "progress no entry is appended and every task of a batch is told so, and no configuration action starts; the transfer task is told success "
          "only when the leader is released having seen a higher term; every other ending reports an error and clears the transfer; impossible "
